@@ -102,7 +102,7 @@ func dscOpt(n int) string {
 
 type dscEnt struct {
 	a    []uint
-	typ  int
+	typ  int    // -1 = entityType omitted (removed entries only, as real devices send them)
 	chg  string // a r n
 	desc int    // -1 = absent
 }
@@ -138,7 +138,7 @@ func dscAtoiOpt(s string) int {
 func (m dscMsg) String() string {
 	toks := []string{"msg", strconv.Itoa(m.peer), m.kind}
 	for _, e := range m.ents {
-		toks = append(toks, fmt.Sprintf("%s:%d:%s:%s", h.EntU(e.a), e.typ, e.chg, dscOpt(e.desc)))
+		toks = append(toks, fmt.Sprintf("%s:%s:%s:%s", h.EntU(e.a), dscOpt(e.typ), e.chg, dscOpt(e.desc)))
 	}
 	toks = append(toks, "|")
 	for _, f := range m.feats {
@@ -172,8 +172,7 @@ func dscParseMsg(op string) (dscMsg, bool) {
 		if len(p) != 4 {
 			return m, false
 		}
-		t, _ := strconv.Atoi(p[1])
-		m.ents = append(m.ents, dscEnt{dscAddrU(p[0]), t, p[2], dscAtoiOpt(p[3])})
+		m.ents = append(m.ents, dscEnt{dscAddrU(p[0]), dscAtoiOpt(p[1]), p[2], dscAtoiOpt(p[3])})
 	}
 	for i++; i < len(f); i++ {
 		p := strings.Split(f[i], ":")
@@ -494,8 +493,12 @@ func (w *dscWorld) deliver(m dscMsg) {
 	withDev := (len(m.ents)+len(m.feats))%3 != 0 // the device part of entity addresses may be omitted
 	for _, e := range m.ents {
 		d := &model.NetworkManagementEntityDescriptionDataType{
-			EntityAddress: &model.EntityAddressType{Entity: spine.NewAddressEntityType(e.a)},
-			EntityType:    util.Ptr(dscEType(e.typ))}
+			EntityAddress: &model.EntityAddressType{Entity: spine.NewAddressEntityType(e.a)}}
+		if e.typ >= 0 {
+			d.EntityType = util.Ptr(dscEType(e.typ))
+		} else if e.chg != "r" {
+			panic("entityType may only be omitted on removed entries (C05)")
+		}
 		if withDev {
 			d.EntityAddress.Device = dev
 		}
@@ -770,7 +773,7 @@ func keys(m map[string]bool) []string {
 
 // ---------------------------------------------------------------- one history
 
-type dscStats struct{ cascadeSteps, removedEntities, mixed, cascadeHist, hist int }
+type dscStats struct{ cascadeSteps, removedEntities, mixed, cascadeHist, hist, readdOtherType, noType int }
 
 // runDscHistory executes ops on a fresh world and on the model, judges every discovery message by the
 // SPEC monitor and compares observations with the model. d may be nil (probe / shrink without model).
@@ -816,6 +819,16 @@ func runDscHistory(r *h.Report, d *h.Driver, ops []string, st *dscStats) {
 			mixed := dscMixed(prev, m)
 			if mixed && st != nil {
 				st.mixed++
+			}
+			if st != nil {
+				for _, e := range m.ents {
+					if old, ok := prev[h.EntU(e.a)]; ok && e.chg != "r" && m.kind != "full" && e.typ != old.typ && e.typ > 0 {
+						st.readdOtherType++
+					}
+					if e.typ < 0 {
+						st.noType++
+					}
+				}
 			}
 			ski := w.peers[m.peer].ski
 			var wantEvS []string
@@ -1042,7 +1055,17 @@ func (g *dscGen) msg(p int, kind string) dscMsg {
 			m.ents = append(m.ents, dscEnt{a, g.entTyp(p, a), "a", r.Intn(4) - 1})
 			m.feats = append(m.feats, g.feats(a)...)
 		}
-		if r.Intn(40) == 0 {
+		pure := true
+		for _, e := range m.ents {
+			pure = pure && e.chg == "r"
+		}
+		if pure && r.Intn(2) == 0 {
+			// the shape real devices send: a removed entry carries the address only. Only in notifications without
+			// added entries: as written, an added entry makes the handler dereference every entry's entityType (C05)
+			for i := range m.ents {
+				m.ents[i].typ = -1
+			}
+		} else if r.Intn(40) == 0 {
 			m.ents[r.Intn(len(m.ents))].chg = "n" // entry without a state change: the statement is silent, the model is not
 		}
 		r.Shuffle(len(m.feats), func(i, j int) { m.feats[i], m.feats[j] = m.feats[j], m.feats[i] })
@@ -1221,8 +1244,8 @@ var dscCorpus = map[string][]string{
 		"msg 1 reply 0:0:n:- 1:1:n:1 | " + dscNM + " 1:1:1:1:1:1=4,2=1 1:2:4:0:-:-",
 		"msg 1 partial 1.1:2:a:- 1.2:2:a:3 | 1.1:1:1:1:-:1=1 1.2:1:2:1:-:4=4 1.2:2:6:0:2:-",
 		"sub 1 1.2 2 1 1", "bind 1 1.2 2 1 2", "sub 1 1 2 1 4", "csub 1 1 5 1.1 1", "cbind 1 1 5 1 1",
-		"msg 1 partial 1:1:r:- | ",
-		"msg 1 partial 1:1:r:- 2:1:r:- | ",
+		"msg 1 partial 1:-:r:- | ",
+		"msg 1 partial 1:-:r:- 2:-:r:- | ",
 		"msg 1 partial 1.1:3:a:5 1.1:3:a:6 | 1.1:2:3:1:-:5=1,5=x,6=x,5=2",
 		"msg 1 partial 1.2:2:r:- 1.2:2:r:- | ",
 		"msg 1 partial 1.1:2:a:- 1.1:2:r:- | 1.1:1:1:1:-:-",
@@ -1235,21 +1258,36 @@ var dscCorpusOrder = []string{"mixed:added-then-removed", "mixed:removed-then-ad
 
 // ---------------------------------------------------------------- probes (select the member of the model family)
 
-// the witness of a flag is run on the real code alone; the flag is on iff the SPEC monitor reports its key
-func dscProbe(r *h.Report, name, key string, ops []string) bool {
-	q := h.Quiet()
-	runDscHistory(q, nil, ops, nil)
-	on := q.HasSpecFail(key)
-	detail := "the real code handles the witness as the property says: repaired member selected"
-	if on {
-		for _, sf := range q.SpecFailures {
-			if sf.Key == key {
-				detail = sf.Detail
+// the witnesses of a flag are run on the real code alone; the flag is on iff the SPEC monitor reports its key on
+// one of them
+func dscProbe(r *h.Report, name, key string, witnesses ...string) bool {
+	on := false
+	detail := "the real code handles the witnesses as the property says: repaired member selected"
+	var ops []string
+	for _, wn := range witnesses {
+		q := h.Quiet()
+		runDscHistory(q, nil, dscCorpus[wn], nil)
+		if q.HasSpecFail(key) && !on {
+			on = true
+			ops = dscCorpus[wn]
+			for _, sf := range q.SpecFailures {
+				if sf.Key == key {
+					detail = wn + ": " + sf.Detail
+				}
 			}
 		}
 	}
+	if !on {
+		ops = dscCorpus[witnesses[0]]
+	}
 	r.SetFlag(name, on, ops, detail)
 	return on
+}
+
+func dscProbeAll(r *h.Report) (bool, bool) {
+	whole := dscProbe(r, "wholeMessage", "C06/mixed-add-remove-notification", "mixed:added-then-removed", "mixed:removed-then-added", "mixed:full")
+	bindent := dscProbe(r, "bindEntityOnly", "C06/cascade-binding-other-peer", "cascade:binding-other-peer")
+	return whole, bindent
 }
 
 func TestDiscovery(t *testing.T) {
@@ -1268,16 +1306,14 @@ func TestDiscovery(t *testing.T) {
 		"non-trivial = a history in which an entity removal changed a registry or the client-side bookkeeping (distinct by op text)")
 	defer r.Write()
 	if ops := h.ReplayOps("discovery"); ops != nil {
-		whole := dscProbe(r, "wholeMessage", "C06/mixed-add-remove-notification", dscCorpus["mixed:added-then-removed"])
-		bindent := dscProbe(r, "bindEntityOnly", "C06/cascade-binding-other-peer", dscCorpus["cascade:binding-other-peer"])
+		whole, bindent := dscProbeAll(r)
 		d := h.StartDriver("drv_disc", fmt.Sprintf("whole=%d", h.B2i(whole)), fmt.Sprintf("bindent=%d", h.B2i(bindent)))
 		defer d.Close()
 		runDscHistory(r, d, ops, nil)
 		return
 	}
 	// probe phase: which member of the family is the tree under test?
-	whole := dscProbe(r, "wholeMessage", "C06/mixed-add-remove-notification", dscCorpus["mixed:added-then-removed"])
-	bindent := dscProbe(r, "bindEntityOnly", "C06/cascade-binding-other-peer", dscCorpus["cascade:binding-other-peer"])
+	whole, bindent := dscProbeAll(r)
 	d := h.StartDriver("drv_disc", fmt.Sprintf("whole=%d", h.B2i(whole)), fmt.Sprintf("bindent=%d", h.B2i(bindent)))
 	defer d.Close()
 	if a := d.Ask("nonsense"); a != "bad-op" {
@@ -1320,13 +1356,21 @@ func TestDiscovery(t *testing.T) {
 			r.ReplaceMismatch(0, small, q.Mismatches[0].Impl, q.Mismatches[0].Model)
 		}
 	}
-	msgs := r.Dist["msg:partial"] + r.Dist["msg:partial:changed"] + r.Dist["msg:partial:unspecified"]
-	r.Floor("partial notifications that change the tree", r.Dist["msg:partial:changed"], msgs, 0.5)
-	r.Floor("full notifications that change the tree", r.Dist["msg:full:changed"], r.Dist["msg:full"]+r.Dist["msg:full:changed"]+r.Dist["msg:full:unspecified"], 0.3)
-	r.Floor("subscription requests granted", r.Dist["sub:granted"], r.Dist["sub:granted"]+r.Dist["sub:refused"], 0.6)
-	r.Floor("binding requests granted", r.Dist["bind:granted"], r.Dist["bind:granted"]+r.Dist["bind:refused"], 0.6)
-	r.Floor("client-side subscribe / bind accepted", r.Dist["csub:done"]+r.Dist["cbind:done"], r.Dist["csub:done"]+r.Dist["cbind:done"]+r.Dist["csub:refused"]+r.Dist["cbind:refused"], 0.9)
-	r.Floor("histories in which a removal changed a registry", st.cascadeHist, st.hist, 0.3)
+	if r.MismatchN == 0 {
+		// generator-quality floors guard a run that passes; a history that disagrees with the model is cut short at
+		// that op, so after mismatches the distribution says nothing about the generator
+		msgs := r.Dist["msg:partial"] + r.Dist["msg:partial:changed"] + r.Dist["msg:partial:unspecified"]
+		r.Floor("partial notifications that change the tree", r.Dist["msg:partial:changed"], msgs, 0.5)
+		r.Floor("full notifications that change the tree", r.Dist["msg:full:changed"], r.Dist["msg:full"]+r.Dist["msg:full:changed"]+r.Dist["msg:full:unspecified"], 0.3)
+		r.Floor("subscription requests granted", r.Dist["sub:granted"], r.Dist["sub:granted"]+r.Dist["sub:refused"], 0.6)
+		r.Floor("binding requests granted", r.Dist["bind:granted"], r.Dist["bind:granted"]+r.Dist["bind:refused"], 0.6)
+		r.Floor("client-side subscribe / bind accepted", r.Dist["csub:done"]+r.Dist["cbind:done"], r.Dist["csub:done"]+r.Dist["cbind:done"]+r.Dist["csub:refused"]+r.Dist["cbind:refused"], 0.9)
+		r.Floor("histories in which a removal changed a registry", st.cascadeHist, st.hist, 0.3)
+	} else {
+		r.Info["floors"] = fmt.Sprintf("not evaluated: %d histories were cut short by a disagreement with the model", r.MismatchN)
+	}
+	r.Info["known entities re-announced as added with another entityType (SPEC: type is kept)"] = st.readdOtherType
+	r.Info["removed entries without entityType"] = st.noType
 	r.Info["entities removed"] = st.removedEntities
 	r.Info["steps in which a removal changed a registry or the client-side bookkeeping"] = st.cascadeSteps
 	r.Info["messages that add and remove in one notification"] = st.mixed
